@@ -6,7 +6,9 @@ package main
 
 import (
 	"encoding/json"
+	goerr "errors"
 	"fmt"
+	pkgerr "github.com/pkg/errors"
 	"os"
 	"path/filepath"
 	"reflect"
@@ -323,6 +325,57 @@ func cmdDepth(args []string) {
 			}
 		}
 	}
+	// a constructor given a cause that already has a stack (%w) still records ITS caller
+	outermostStackFn := func(e error) string {
+		for c := e; c != nil; c = errors.UnwrapOnce(c) {
+			if sp, ok := c.(errbase.StackTraceProvider); ok {
+				fr := framesOf(sp.StackTrace())
+				if len(fr) > 0 {
+					return fr[0].Fn
+				}
+			}
+		}
+		return "none"
+	}
+	for ri, relabel := range []func(error) error{c16RelabelNewf, c16RelabelAssert, c16RelabelWrapf} {
+		evals++
+		want := []string{"c16RelabelNewf", "c16RelabelAssert", "c16RelabelWrapf"}[ri]
+		for ci, cause := range []error{c16Origin(), c16StackLocally(goerr.New("plain")), pkgerr.New("pkg")} {
+			if got := outermostStackFn(relabel(cause)); !strings.HasSuffix(got, "."+want) {
+				fail(fmt.Sprintf("relabel-%d-%d", ri, ci), fmt.Sprintf("the outermost stack recorded by a constructor wrapping (%%w) a cause that already has a stack starts in %s, expected its caller %s", got, want), "")
+			}
+		}
+	}
+	// long chains: the innermost frame, however many layers were added on top
+	for _, layers := range []int{8, 9, 12, 17, 30} {
+		evals++
+		e := c16Origin()
+		want := src(e)
+		var w error = e
+		for i := 0; i < layers; i++ {
+			if i%2 == 0 {
+				w = errors.Wrapf(w, "layer %d", i)
+			} else {
+				w = errors.WithHint(w, "h")
+			}
+		}
+		for hop := 0; hop <= 1; hop++ {
+			if hop == 1 {
+				w = transferOnce(w, nil)
+			}
+			if got := src(w); got != want {
+				fail(fmt.Sprintf("long-chain-%d-hop%d", layers, hop), fmt.Sprintf("GetOneLineSource below %d added layers is %q, the innermost frame is %q", layers, got, want), "")
+				break
+			}
+		}
+		var hints error = goerr.New("no stack at all")
+		for i := 0; i < layers+8; i++ {
+			hints = errors.WithHint(hints, "h")
+		}
+		if got := src(c16StackLocally(hints)); !strings.Contains(got, "c16StackLocally true") {
+			fail(fmt.Sprintf("long-hints-%d", layers), "GetOneLineSource of a stack layer above many annotation layers: "+got, "")
+		}
+	}
 	// unusual symbol and file names
 	for _, tc := range []struct {
 		id   string
@@ -395,3 +448,12 @@ func c16WrapLocally(e error) error { return errors.Wrap(e, "local") }
 
 //go:noinline
 func c16StackLocally(e error) error { return errors.WithStack(e) }
+
+//go:noinline
+func c16RelabelNewf(cause error) error { return errors.Newf("relabel: %w", cause) }
+
+//go:noinline
+func c16RelabelAssert(cause error) error { return errors.AssertionFailedf("relabel: %w", cause) }
+
+//go:noinline
+func c16RelabelWrapf(cause error) error { return errors.Wrapf(cause, "relabel %d", 1) }
